@@ -98,9 +98,15 @@ func errOf(kind string) error {
 		return os.ErrDeadlineExceeded // Timeout() is true: a retryable look, still a failed write
 	case "canceled":
 		return context.Canceled
+	case "list":
+		return errList{errors.New("disk full"), errors.New("quota exceeded")} // a slice type used by value (like go/scanner.ErrorList): not comparable with ==
 	}
 	return nil
 }
+
+type errList []error
+
+func (l errList) Error() string { return fmt.Sprintf("%d errors, first: %v", len(l), l[0]) }
 
 // causeErr is an error with an optional cause (unset here).
 type causeErr struct {
